@@ -192,6 +192,9 @@ type client struct {
 	close        chan struct{}
 	closed       chan struct{}
 	connected    chan struct{}
+	// authContinue is signalled by connectWithTimeOut when it has answered with AUTH (continue authentication) and
+	// needs the next packet of the client before the connection is established.
+	authContinue chan struct{}
 	status       int32
 	// if 1, when client close, the session expiry interval will be ignored and the session will be removed.
 	forceRemoveSession int32
@@ -423,6 +426,7 @@ func (client *client) readLoop() {
 		client.setError(err)
 		close(client.in)
 	}()
+	var pending []packets.Packet
 	for {
 		var packet packets.Packet
 		if client.IsConnected() {
@@ -448,7 +452,19 @@ func (client *client) readLoop() {
 			}
 		}
 		client.in <- packet
-		<-client.connected
+		// The packets that follow the CONNECT are for the established connection - except during enhanced
+		// authentication, where the client's AUTH packets belong to the handshake.
+		select {
+		case <-client.connected:
+		case <-client.authContinue:
+			pending = append(pending, packet)
+			continue
+		}
+		// the client id is known only now: account the packets of the handshake
+		for _, p := range pending {
+			srv.statsManager.packetReceived(p, client.opts.ClientID)
+		}
+		pending = nil
 		srv.statsManager.packetReceived(packet, client.opts.ClientID)
 		if client.server.config.Log.DumpPacket {
 			if ce := zaplog.Check(zapcore.DebugLevel, "received packet"); ce != nil {
@@ -636,6 +652,12 @@ func (client *client) connectWithTimeOut() (ok bool) {
 						AuthMethod: conn.Properties.AuthMethod,
 						AuthData:   authData,
 					},
+				}
+				// let the read loop fetch the client's answer (it consumes one signal per packet it hands over, so the
+				// buffered channel is never full when the read loop is running)
+				select {
+				case client.authContinue <- struct{}{}:
+				default:
 				}
 				continue
 			}
